@@ -7,12 +7,11 @@ from ..tys import tstr, pointee
 
 EXPLANATION = (
     "Static analysis of the polymorphic MIR (slice length L and array length N symbolic; configs F0+F1). "
-    "C10.C: in chunks_from_slice(_mut) the two from_raw_parts pieces - (base+0, floor(L/N) arrays of N*size(T) bytes) and "
-    "(base + floor(L/N)*N elements, L - floor(L/N)*N elements) - are proved, with the axioms of floor division, to tile the source's L*size(T) bytes exactly "
-    "(adjacent, no overlap, nothing beyond the end), the remainder is proved < N, both pieces are reached only under N != 0, and the N = 0 branch returns two empty "
-    "slices only under L = 0 and panics under L != 0. C10.F: slice_from_chunks(_mut) covers exactly len*N elements at offset 0. "
-    "C10.X: from_chunks/into_chunks(_mut) transmute between slices whose element sizes are equal under Const<U>: IntoArrayLength<ArrayLength = N>, returning the "
-    "source fat pointer unchanged. C10.M: the ten signatures tie the returned regions and mutability to the source parameter. "
+    "Each rule is a postcondition on every return path of the expanded, tree-shaped body, whatever idiom builds the slices (from_raw_parts, split_at, transmute, casts). "
+    "C10.C: in chunks_from_slice(_mut), under N != 0 the two returned views - arrays first, from the source's address - are proved, with the axioms of floor division, to tile the source's "
+    "L*size(T) bytes exactly (adjacent, no overlap, nothing beyond the end) with a remainder of fewer than N elements; under N == 0 both are empty and L = 0; panics only under N == 0 and L != 0. "
+    "C10.F: slice_from_chunks(_mut) covers exactly len*N elements at offset 0. "
+    "C10.X: from_chunks/into_chunks(_mut) return the source's address and element count with element sizes equal under Const<U>: IntoArrayLength<ArrayLength = N> and the same mutability. C10.M: the ten signatures tie the returned regions and mutability to the source parameter. "
     "Not decided here: acceptance by the compiler's const evaluator (that is an execution; see C18).")
 
 K = "GenericArray<$0,$1>::"
